@@ -164,6 +164,10 @@ impl<T> SocksRequest<T> {
             }
             TargetAddress::SocketAddr(a) => {
                 if let IpAddr::V4(v4) = a.ip() {
+                    if u32::from(v4) < 0x100 {
+                        // 0.0.0.x announces a socks4a domain name, see read_v4
+                        bail!("address not representable in socks4: {}", self.target)
+                    }
                     (v4.octets(), a.port(), None)
                 } else {
                     bail!("ipv6 not supported in socks4: {}", self.target)
